@@ -42,8 +42,16 @@ def make_copy(m, wd):
     sh(["rsync", "-a", "--delete", "--exclude", ".git", "/repo/", wd + "/"])
     p = os.path.join(wd, m["file"])
     src = open(p, "rb").read()
-    assert src[m["start"]:m["end"]].decode() == m["old"], (m, src[m["start"]:m["end"]])
-    open(p, "wb").write(src[:m["start"]] + m["new"].encode() + src[m["end"]:])
+    st, en = m["start"], m["end"]
+    if src[st:en].decode("utf8", "replace") != m["old"]:
+        # the file changed since the mutant was generated (a fix commit): nearest occurrence of the same text
+        o = m["old"].encode(); cands = []; k = src.find(o)
+        while k >= 0:
+            cands.append(k); k = src.find(o, k + 1)
+        if not cands:
+            raise LookupError("mutated text no longer in %s" % m["file"])
+        st = min(cands, key=lambda c: abs(c - m["start"])); en = st + len(o)
+    open(p, "wb").write(src[:st] + m["new"].encode() + src[en:])
 
 
 def phase1_one(m):
@@ -98,8 +106,12 @@ def phase2_one(m):
     s = slot()
     wd = "%s/w%d" % (TMP, s)
     hz = "%s/h%d" % (TMP, s)
-    make_copy(m, wd)
     res = dict(m, tie=[], props={})
+    try:
+        make_copy(m, wd)
+    except LookupError as e:
+        res["gone"] = str(e)
+        return res
     # tie: regenerated files
     g = "%s/g%d" % (TMP, s)
     shutil.rmtree(g, ignore_errors=True); os.makedirs(g)
